@@ -118,3 +118,28 @@ Definition subset (ivs : intervals) (times : list Z) (t_start t_stop : Z)
   do arr <- between ivs t_start t_stop;
   if integrity arr then Ok (subset_events times t_start t_stop, arr, livetime arr)
   else Err ValueError.
+
+(* ---- good-run list -> Livetime (publicdata_ps/utils.clip_grl_start_times, I3Livetime.from_grl_data,
+   Livetime.get_integrated_livetime).  A good-run list is the list of its (start, stop) rows. *)
+
+(* clip_grl_start_times: start[1:] = where(start[1:] - stop[:-1] < 0, stop[:-1], start[1:]); the stop column is
+   not written, so element i is compared with the ORIGINAL stop of element i-1 *)
+Fixpoint clip_from (prev_stop : Z) (runs : intervals) : intervals :=
+  match runs with
+  | [] => []
+  | (s, e) :: r => (grl_clip_new (grl_clip_m s prev_stop) prev_stop s, e) :: clip_from e r
+  end.
+Definition clip_grl (runs : intervals) : intervals :=
+  match runs with [] => [] | (s, e) :: r => (s, e) :: clip_from e r end.
+
+(* Livetime.__init__ / the interval-array setter: the integrity check, then the array is stored as given *)
+Definition mk_livetime (ivs : intervals) : res intervals :=
+  if integrity ivs then Ok ivs else Err ValueError.
+(* I3Livetime.from_grl_data: hstack of the start and the stop column, handed to the constructor *)
+Definition from_grl (runs : intervals) : res intervals := mk_livetime runs.
+(* the chain of time_dependent_ps.create_analysis: clip, then build the live time *)
+Definition grl_livetime (runs : intervals) : res intervals := from_grl (clip_grl runs).
+
+(* Livetime.get_integrated_livetime: a number is returned as it is, a Livetime gives its .livetime *)
+Definition integrated_livetime (x : Z + intervals) : Z :=
+  match x with inl v => v | inr ivs => livetime ivs end.
